@@ -1,0 +1,56 @@
+//! Verification harness only (feature `verif`): a socket that is either a TCP stream or an
+//! in-memory pipe, so that `Connection` runs unchanged over a scripted byte source/sink.
+use std::io;
+use std::pin::Pin;
+use std::task::{Context, Poll};
+use tokio::io::{AsyncRead, AsyncWrite, DuplexStream, ReadBuf};
+use tokio::net::TcpStream;
+
+pub enum Sock {
+    Tcp(TcpStream),
+    Mem(DuplexStream),
+}
+
+impl From<TcpStream> for Sock {
+    fn from(s: TcpStream) -> Sock {
+        Sock::Tcp(s)
+    }
+}
+
+impl From<DuplexStream> for Sock {
+    fn from(s: DuplexStream) -> Sock {
+        Sock::Mem(s)
+    }
+}
+
+impl AsyncRead for Sock {
+    fn poll_read(self: Pin<&mut Self>, cx: &mut Context<'_>, buf: &mut ReadBuf<'_>) -> Poll<io::Result<()>> {
+        match self.get_mut() {
+            Sock::Tcp(s) => Pin::new(s).poll_read(cx, buf),
+            Sock::Mem(s) => Pin::new(s).poll_read(cx, buf),
+        }
+    }
+}
+
+impl AsyncWrite for Sock {
+    fn poll_write(self: Pin<&mut Self>, cx: &mut Context<'_>, buf: &[u8]) -> Poll<io::Result<usize>> {
+        match self.get_mut() {
+            Sock::Tcp(s) => Pin::new(s).poll_write(cx, buf),
+            Sock::Mem(s) => Pin::new(s).poll_write(cx, buf),
+        }
+    }
+
+    fn poll_flush(self: Pin<&mut Self>, cx: &mut Context<'_>) -> Poll<io::Result<()>> {
+        match self.get_mut() {
+            Sock::Tcp(s) => Pin::new(s).poll_flush(cx),
+            Sock::Mem(s) => Pin::new(s).poll_flush(cx),
+        }
+    }
+
+    fn poll_shutdown(self: Pin<&mut Self>, cx: &mut Context<'_>) -> Poll<io::Result<()>> {
+        match self.get_mut() {
+            Sock::Tcp(s) => Pin::new(s).poll_shutdown(cx),
+            Sock::Mem(s) => Pin::new(s).poll_shutdown(cx),
+        }
+    }
+}
